@@ -102,6 +102,26 @@ mod verif_battery_c09_status {
         serde_json::from_str(&json).unwrap()
     }
     #[test]
+    fn c09_validate_accepts_exactly_the_complete_documents() {
+        let doc = |version: &str, enabled: Option<bool>, state: Option<&str>| -> KeyStatus {
+            let mut parts = vec![r#""authorizationScheme":"Azure-HMAC-SHA256","keyDeliveryMethod":"http","keyGuid":null,"requiredClaimsHeaderPairs":[]"#.to_string(), format!(r#""version":"{}""#, version)];
+            if let Some(e) = enabled { parts.push(format!(r#""secureChannelEnabled":{}"#, e)); }
+            if let Some(s) = state { parts.push(format!(r#""secureChannelState":"{}""#, s)); }
+            serde_json::from_str(&format!("{{{}}}", parts.join(","))).unwrap()
+        };
+        let states = [None, Some("Wireserver"), Some("WireserverAndImds"), Some("disabled"), Some("bogus")];
+        for version in ["1.0", "2.0", "3.0"] {
+            for enabled in [None, Some(true), Some(false)] {
+                for state in states {
+                    let state_ok = match state { Some(s) => ["disabled", "wireserver", "wireserverandimds"].contains(&s.to_lowercase().as_str()), None => true };
+                    let expect = !(enabled.is_none() && state.is_none()) && state_ok && !(state.is_none() && version == "1.0") && !(enabled.is_none() && version == "2.0");
+                    let got = doc(version, enabled, state).validate().is_ok();
+                    assert_eq!(expect, got, "version {} secureChannelEnabled {:?} secureChannelState {:?}", version, enabled, state);
+                }
+            }
+        }
+    }
+    #[test]
     fn c09_rule_getters_return_their_own_endpoint() {
         let s = status(Some("enforce"), Some("audit"), Some("disabled"));
         assert_eq!(s.get_wireserver_rule_id(), "ws-id"); assert_eq!(s.get_imds_rule_id(), "imds-id"); assert_eq!(s.get_hostga_rule_id(), "hga-id");
@@ -146,6 +166,12 @@ mod verif_battery_c09_wrapper {
         assert_eq!(s.update_hostga_rule_id("c".to_string()).await.unwrap().0, true);
         assert_eq!(s.get_hostga_rule_id().await.unwrap(), "c");
         assert_eq!(s.get_wireserver_rule_id().await.unwrap(), "a");
+        // a document that no longer carries rules for an endpoint offers the empty id: that is a change too
+        assert_eq!(s.update_wireserver_rule_id(String::new()).await.unwrap().0, true, "rules removed (empty id) must be reported as an update");
+        assert_eq!(s.get_wireserver_rule_id().await.unwrap(), "");
+        assert_eq!(s.update_imds_rule_id(String::new()).await.unwrap().0, true, "rules removed (empty id) must be reported as an update");
+        assert_eq!(s.update_hostga_rule_id(String::new()).await.unwrap().0, true, "rules removed (empty id) must be reported as an update");
+        assert_eq!(s.update_wireserver_rule_id(String::new()).await.unwrap().0, false);
         assert_eq!(s.update_current_secure_channel_state("x".to_string()).await.unwrap(), true);
         assert_eq!(s.update_current_secure_channel_state("x".to_string()).await.unwrap(), false);
         assert_eq!(s.get_current_secure_channel_state().await.unwrap(), "x");
@@ -795,12 +821,73 @@ mod verif_battery_c18 {
 '''
 
 
+# C11: every one of many concurrent denials is counted (the status actor's queue holds 100 actions)
+C11_BURST = r'''
+#[cfg(test)]
+mod verif_battery_c11 {
+    use super::*;
+    #[tokio::test(flavor = "current_thread")]
+    async fn c11_every_concurrent_denial_is_counted() {
+        let state = AgentStatusSharedState::start_new();
+        fn summary() -> ProxySummary {
+            ProxySummary {
+                id: 1, method: "GET".to_string(), url: "/x".to_string(), clientIp: "127.0.0.1".to_string(), clientPort: 1, ip: "169.254.169.254".to_string(), port: 80,
+                userId: 1000, userName: "u".to_string(), userGroups: vec![], processFullPath: std::path::PathBuf::from("/p"), processCmdLine: "p x".to_string(), runAsElevated: false,
+                responseStatus: "403".to_string(), elapsedTime: 1, errorDetails: String::new(),
+            }
+        }
+        let mut tasks = Vec::new();
+        for _ in 0..250 {
+            let st = state.clone();
+            tasks.push(tokio::spawn(async move { st.add_one_failed_connection_summary(summary()).await.is_ok() }));
+        }
+        let mut reported = 0;
+        for t in tasks { if t.await.unwrap() { reported += 1; } }
+        let all = state.get_all_failed_connection_summary().await.unwrap();
+        let counted: u64 = all.iter().map(|x| x.count).sum();
+        assert_eq!(250, counted, "250 concurrent denials, {} acknowledged, {} counted in the published summary", reported, counted);
+    }
+}
+'''
+
+
+# C08 at loop level: the scaffolding of the C12 loop battery (scripted host, real poll loop) with C08's own questions
+C08_LOOP = C12_LOOP[:C12_LOOP.index("    #[tokio::test")].replace("verif_battery_c12_loop", "verif_battery_c08_loop").replace("verif_c12_", "verif_c08_") + r'''
+    #[tokio::test(flavor = "multi_thread", worker_threads = 2)]
+    async fn c08_key_file_survives_a_failed_attestation() {
+        // from the agent's side a lost attest response and a refusal look alike: the host may already regard the key as latched
+        let (_found, root) = observe("attestfail", Script { status_body: status_doc(None), key_body: key_doc(G1, K1), attest_status: 503 }, None, &[K1], 600, |_| {}).await;
+        let stored = std::fs::read_to_string(root.join("Keys").join(format!("{}.key", G1)));
+        let _ = std::fs::remove_dir_all(&root);
+        let text = stored.expect("the key that was sent for attestation is no longer in the key store");
+        assert!(text.contains(K1), "the stored key file is not the key that was sent for attestation: {}", text);
+    }
+    #[test]
+    fn c08_interrupted_store_leaves_nothing_under_the_final_name() {
+        let d = std::env::temp_dir().join(format!("verif_c08_interrupted_{}", std::process::id()));
+        let _ = std::fs::remove_dir_all(&d);
+        std::fs::create_dir_all(&d).unwrap();
+        // the write of the temporary file cannot start (a directory sits on its name): the store fails before the rename
+        std::fs::create_dir_all(d.join(format!("{}.tmp", G1))).unwrap();
+        let mut k = Key::empty(); k.guid = G1.to_string(); k.key = K1.to_string();
+        let r = KeyKeeper::store_key(&d, &k);
+        let final_name = d.join(format!("{}.key", G1));
+        let left = std::fs::metadata(&final_name).ok().map(|m| m.len());
+        let _ = std::fs::remove_dir_all(&d);
+        assert!(r.is_err(), "HARNESS the store was expected to fail");
+        assert!(left.is_none(), "an interrupted store left a file of {:?} bytes under the key's final name", left);
+    }
+}
+'''
+
+
 BATTERIES = {
     "C08": [("proxy_agent_shared", [("proxy_agent_shared/src/misc_helpers.rs", C08_SHARED)], "verif_battery_c08_file", False),
-            ("azure-proxy-agent", [("proxy_agent/src/key_keeper.rs", C08_AGENT)], "verif_battery_c08_key", True)],
+            ("azure-proxy-agent", [("proxy_agent/src/key_keeper.rs", C08_AGENT + C08_LOOP)], "verif_battery_c08_key", True)],
     "C09": [("azure-proxy-agent", [("proxy_agent/src/key_keeper/key.rs", C09_KEY), ("proxy_agent/src/shared_state/key_keeper_wrapper.rs", C09_WRAPPER)], "verif_battery_c09", True)],
     "C12": [("azure-proxy-agent", [("proxy_agent/src/common/helpers.rs", C12_HELPERS), ("proxy_agent/src/key_keeper/key.rs", C12_KEY),
                                    ("proxy_agent/src/host_clients/wire_server_client.rs", C12_WIRE), ("proxy_agent/src/key_keeper.rs", C12_LOOP)], "verif_battery_c12", True)],
+    "C11": [("azure-proxy-agent", [("proxy_agent/src/shared_state/agent_status_wrapper.rs", C11_BURST)], "verif_battery_c11", True)],
     "C13": [("azure-proxy-agent", [("proxy_agent/src/key_keeper.rs", C13_NOTIFY)], "verif_battery_c13", True)],
     # C07: a REAL kernel audit_map (map-only BPF object, no program attached; needs the bpf() syscall, i.e. root): the test plays the kernel,
     # writes attribution records for chosen source ports and drives the real TcpConnectionContext::new / ProxyServer accept path
@@ -826,7 +913,7 @@ def confirm(rep, pid):
         pkg, inj, flt, no_args = entry[:4]
         res, out = rp.run_rust_tests(pkg, inj, flt, no_args=no_args, cargo_args=entry[4] if len(entry) > 4 else None)
         for name, st in (res or {}).items():
-            if name.startswith("c%s_" % pid[1:].lower()) or name.startswith("c0"):
+            if name.startswith("c%s_" % pid[1:].lower()):
                 if st in ("ok", "FAILED"):
                     ran.append(name)
                 if st == "FAILED":
